@@ -34,6 +34,7 @@ def handle (line : String) : String :=
   | "procargs" :: rest => " ".intercalate ((procArgs (readPieces rest)).map encArg)
   | "parse" :: rest => handleParse rest
   | "parsev" :: rest => handleParse rest true
+  | "parsep" :: rest => handleParseProg rest
   | "tok" :: rest => handleTok rest
   | "macro" :: rest => handleMacro rest
   | "makeargs" :: rest => handleMakeArgs rest
